@@ -1046,7 +1046,7 @@ func runC19Cand(c *Ctx) {
 				}
 				bad = append(bad, "a test at "+p.Pos(ifi.Pos()))
 			case *ssa.BinOp:
-				if isRangeIndexCond(cnd) {
+				if isRangeIndexCond(cnd) || isCountedLoopCond(b, cnd) {
 					continue
 				}
 				bad = append(bad, "a comparison at "+p.Pos(cnd.Pos()))
@@ -1118,4 +1118,31 @@ func runC19Cand(c *Ctx) {
 	} else {
 		c.bad("(*RuleMatrix).checkExclude|unknown key", fn.Pos(), "an exclude key without candidates is not reported at the key")
 	}
+}
+
+// isCountedLoopCond: the condition of a hand-written counted loop `for i := 0; i < len(x); i++` at its header: a counter
+// of that header compared with a length. Like the implicit index of a range loop it says nothing about the elements.
+func isCountedLoopCond(b *ssa.BasicBlock, cnd *ssa.BinOp) bool {
+	if cnd.Op != token.LSS {
+		return false
+	}
+	ph, ok := cnd.X.(*ssa.Phi)
+	if !ok || ph.Block() != b {
+		return false
+	}
+	isHeader := false
+	for _, h := range loopHeaders(b.Parent()) {
+		if h == b {
+			isHeader = true
+		}
+	}
+	if !isHeader {
+		return false
+	}
+	call, ok := cnd.Y.(*ssa.Call)
+	if !ok {
+		return false
+	}
+	bi, ok := call.Call.Value.(*ssa.Builtin)
+	return ok && bi.Name() == "len"
 }
